@@ -586,9 +586,15 @@ def gen_value(rng, fields, st, path, base, target=None):
     keyuse = {}
     for f in fields:
         srcs = [fpres(f)] + ([] if f[0] == "FBits" else [flen(f)])
+        pp = fpres(f)
         for s in srcs:
             if s[0] in ("LTab", "PTab"):
-                keyuse.setdefault(s[1], []).append([k for k, _ in s[2]])
+                ks = [k for k, _ in s[2]]
+                if s[0] == "LTab" and pp[0] == "PTab" and pp[1] == s[1]:
+                    # a length table that lists only the cases in which the field exists: the key values for which the field is
+                    # absent are fine as well (the length callback is never evaluated for them)
+                    ks = ks + [k for k, b in pp[2] if not b and k not in ks]
+                keyuse.setdefault(s[1], []).append(ks)
 
     def wanted(nm):
         ls = keyuse.get(nm)
